@@ -1420,3 +1420,14 @@ TWINS = [
       "        return self.child.hparent[self.feat][\n"
       "            map_indices_child2parent(self.child, idx)]")),
 ]
+
+# mutant that re-introduces the repaired defect F04 (applies to the fixed tree)
+MUTANTS = list(MUTANTS) + [
+    ("parent-change witness of the direct parent only (F04 returns)",
+     "dclab/rtdc_dataset/fmt_hierarchy/hfilter.py",
+     ('            if ds.format == "hierarchy":\n'
+      '                ds = ds.hparent\n'
+      '            else:\n'
+      '                break\n',
+      '            break\n'), "R4.6"),
+]
